@@ -7,6 +7,7 @@ CONSTANTS
   CompOps <- CompOpsAll
   LocoOps <- LocoOpsAll
   Targets <- Two
+  Near = FALSE
   MaxOps = 2
 INVARIANT ComponentConsistent
 INVARIANT LocoConsistent
